@@ -373,7 +373,7 @@ pub fn damaged_text(rng: &mut Rng) -> (String, &'static str) {
             (t, "surplus-token")
         }
         2 => (format!("{} 4294967296 IN A 192.0.2.1", owner), "ttl-out-of-range"),
-        3 => (format!("{} {} IN MX 65536 {}", owner, ttl, host), "preference-out-of-range"),
+        3 => (format!("{} {} IN MX {} {}", owner, ttl, rng.pick(&["65536", "65536", "4294967296", "4294967306", "99999999999", "18446744073709551616"]), host), "preference-out-of-range"),
         4 => {
             let k = rng.below(4);
             let mut o = ["192", "0", "2", "1"];
@@ -388,7 +388,7 @@ pub fn damaged_text(rng: &mut Rng) -> (String, &'static str) {
             (format!("{} {} IN DS 12345 8 2 {}", owner, ttl, h), "odd-length-digest")
         }
         8 => (format!("{} {} IN DS 12345 8 2 abcg12", owner, ttl), "non-hex-digest"),
-        9 => (format!("{} {} IN DS 65536 8 2 abcd", owner, ttl), "keytag-out-of-range"),
+        9 => (format!("{} {} IN DS {} 8 2 abcd", owner, ttl, rng.pick(&["65536", "4294967296", "4294967297", "99999999999"])), "keytag-out-of-range"),
         10 => (format!("{} {} IN DS 1 256 2 abcd", owner, ttl), "algorithm-out-of-range"),
         11 => (format!("{} {} IN SOA {} {} ( 1 2 3 4 )", owner, ttl, host, host), "soa-missing-number"),
         12 => (format!("{} {} IN A 192.0.2", owner, ttl), "ipv4-three-octets"),
